@@ -37,6 +37,10 @@ def single_cases():
     odd = "plan_caf\udce9.tjp"   # a file name whose bytes are not valid UTF-8 (surrogate-escaped)
     cases.append(("odd-filename-json", {"args": ["report", odd], "files": {odd: ins["simple"]}}))
     cases.append(("odd-filename-csv", {"args": ["--quiet", "report", "--csv", odd], "files": {odd: ins["own-both"]}}))
+    # the requested output file exists and --force is absent: the run refuses, the file stays as it is, nothing is left behind
+    cases.append(("out-exists-json", {"args": ["report", "-o", "out.json", "in.tjp"], "files": {"in.tjp": ins["own-both"], "out.json": b"keep me\n"}}))
+    cases.append(("out-exists-csv", {"args": ["report", "--csv", "--output", "out.csv", "in.tjp"], "files": {"in.tjp": ins["simple"], "out.csv": b"keep me\n"}}))
+    cases.append(("out-exists-stdin", {"args": ["report", "-o", "out.json", "-"], "files": {"out.json": b"keep me\n"}, "stdin": ins["simple"]}))
     good = ins["simple"]
     for rname in ("../esc", "sub/dir/deep", "./x", "../newdir/deep/x", "a/../../up/y"):
         cases.append((f"report-name-{rname}", {"args": ["report", "in.tjp"], "files": {"in.tjp": good + f'taskreport r1 "{rname}" {{\n  formats json, csv\n  columns id\n}}\n'.encode()}}))
